@@ -349,6 +349,8 @@ func runC14(c *RunCtx) {
 			}
 		}
 	}
+	ctxRacePrograms(c, 64, 400)
+	concLifePrograms(c, 48, 300)
 	// longer random sequences, with stalls around the asynchronous context listener
 	for v := 0; v < c.Q(32, 200); v++ {
 		c.Program(fmt.Sprintf("random/%d", v), func(p *Prog) {
@@ -364,6 +366,244 @@ func runC14(c *RunCtx) {
 			}
 			p.Explore(func(pl Plan) *Result { return epFSM(c, cfg, seq, v) },
 				ExploreOpts{Base: 2, K: c.Q(2, 4), Funcs: []string{"goListenToContext", "Stop", "Restart", "start", "Pause", "Resume", "closeChannels", "stopTickers", "goEventLoop", "TunePool"}, Pairs: c.Q(10, 60), MaxCases: c.Q(100, 1500)})
+		})
+	}
+}
+
+// epConcLife: lifecycle calls issued by two or three goroutines at once. The resulting state is
+// schedule dependent, so the reference machine is not applied; what every interleaving must
+// preserve is checked at quiescence: a worker that reports Running processes a probe job, a
+// paused one does after Resume, a stopped one after Restart, and nothing leaks after the final Stop.
+func epConcLife(c *RunCtx, withCtx bool, scripts [][]string) *Result {
+	e := NewEnv(c.Prop)
+	desc := fmt.Sprintf("concurrent-lifecycle ctx=%v scripts=%v", withCtx, scripts)
+	out := RunBubble(c.T, func(bid string) {
+		var ranMu sync.Mutex
+		ran := map[int]int{}
+		var wcfg []any
+		wcfg = append(wcfg, 2)
+		if withCtx {
+			ctx, cancel := context.WithCancel(context.Background())
+			defer cancel()
+			wcfg = append(wcfg, varmq.WithContext(ctx))
+		}
+		w := varmq.NewWorker(func(j varmq.Job[int]) {
+			ranMu.Lock()
+			ran[j.Data()]++
+			ranMu.Unlock()
+		}, wcfg...)
+		q := w.BindQueue()
+		k := NewKit(e, 0)
+		var wg sync.WaitGroup
+		for gi, sc := range scripts {
+			wg.Add(1)
+			go func() {
+				defer wg.Done()
+				for i, op := range sc {
+					switch op {
+					case "Pause":
+						w.Pause()
+					case "Resume":
+						w.Resume()
+					case "Stop":
+						w.Stop()
+					case "Restart":
+						w.Restart()
+					case "PauseAndWait":
+						w.PauseAndWait()
+					case "Add":
+						q.Add(gi*100 + i)
+					case "Tune":
+						w.TunePool(1 + (gi+i)%4)
+					}
+					e.Ev(op)
+				}
+			}()
+		}
+		if !k.Await(wg.Wait) {
+			hangFail(e, "C14", "concurrent-lifecycle-call", bid)
+			return
+		}
+		time.Sleep(50 * time.Microsecond)
+		synctest.Wait()
+		st := w.Status()
+		switch st {
+		case "Paused":
+			w.Resume()
+		case "Stopped", "Initiated":
+			w.Restart()
+		}
+		probe := 999999
+		q.Add(probe)
+		time.Sleep(50 * time.Microsecond)
+		synctest.Wait()
+		ranMu.Lock()
+		pr := ran[probe]
+		ranMu.Unlock()
+		if w.Status() == "Running" && pr != 1 {
+			by, _, det := Census(bid)
+			e.Fail("C14", "running-but-not-processing", "concurrent/"+st, fmt.Sprintf("%s: status after the concurrent calls was %s; the worker now reports %s but the probe job ran %d times (pending=%d processing=%d, library goroutines %v)\n%s", desc, st, w.Status(), pr, w.NumPending(), w.NumProcessing(), by, strings.Join(det, "\n")))
+		}
+		if w.Status() != "Running" {
+			e.Fail("C14", "not-running-after-resume-or-restart", st, fmt.Sprintf("%s: status %s after bringing a %s worker back", desc, w.Status(), st))
+		}
+		if !k.Await(func() { w.Stop() }) {
+			hangFail(e, "C06", "Stop(final)", bid)
+			return
+		}
+		synctest.Wait()
+		if by, total, det := Census(bid); total != 0 {
+			e.Fail("C18", "goroutines-after-stop", creators(by), fmt.Sprintf("%s: %d library goroutines remain: %v\n%s", desc, total, by, strings.Join(det, "\n")))
+		}
+	})
+	switch out.Kind {
+	case "hang":
+		e.Fail("C14", "hang", "concurrent/"+blockedLibFrames(out.Stacks), desc+": "+out.Msg+"\n"+out.Stacks)
+	case "panic":
+		e.Fail("C14", "panic", "concurrent", desc+": "+out.Msg+"\n"+out.Stacks)
+	}
+	e.Nontrivial()
+	r := e.Result(map[string]any{"program": desc})
+	return r
+}
+
+func concLifePrograms(c *RunCtx, nq, nt int) {
+	ops := []string{"Pause", "Resume", "Resume", "Stop", "Restart", "Restart", "PauseAndWait", "Add", "Add", "Tune"}
+	for v := 0; v < c.Q(nq, nt); v++ {
+		c.Program(fmt.Sprintf("concurrent/%d", v), func(p *Prog) {
+			r := p.Rng
+			var scripts [][]string
+			for g := 0; g < 2+r.Intn(2); g++ {
+				var sc []string
+				for i := 0; i < 2+r.Intn(6); i++ {
+					sc = append(sc, ops[r.Intn(len(ops))])
+				}
+				scripts = append(scripts, sc)
+			}
+			withCtx := r.Bool()
+			p.Explore(func(pl Plan) *Result { return epConcLife(c, withCtx, scripts) },
+				ExploreOpts{Base: 4, K: c.Q(3, 6), Funcs: []string{"Restart", "Resume", "start", "Stop", "Pause", "closeChannels", "goEventLoop", "goListenToContext", "stopTickers", "stopAndRemoveAllWorkers"}, Pairs: c.Q(20, 100), MaxCases: c.Q(150, 2000)})
+		})
+	}
+}
+
+// epCtxRace: one client goroutine issues lifecycle calls; at some point the configured context is
+// cancelled WITHOUT letting the bubble settle, so the asynchronous listener's Stop overlaps the
+// client's next calls (the interleaving the property quantifies over). Whatever the interleaving,
+// once everything is quiescent a worker whose context is cancelled must be Stopped, must not
+// process, must end Stopped again after Restart (its parent context is gone), and leak nothing.
+func epCtxRace(c *RunCtx, pre, post []string, expiry bool) *Result {
+	e := NewEnv(c.Prop)
+	desc := fmt.Sprintf("ctx-race expiry=%v pre=%v cancel post=%v", expiry, pre, post)
+	out := RunBubble(c.T, func(bid string) {
+		var ranMu sync.Mutex
+		ran := map[int]int{}
+		ctx, cancel := context.WithCancel(context.Background())
+		defer cancel()
+		wcfg := []any{2, varmq.WithContext(ctx)}
+		if expiry {
+			wcfg = append(wcfg, varmqExpiry(time.Millisecond))
+		}
+		w := varmq.NewWorker(func(j varmq.Job[int]) {
+			ranMu.Lock()
+			ran[j.Data()]++
+			ranMu.Unlock()
+		}, wcfg...)
+		q := w.BindQueue()
+		k := NewKit(e, 0)
+		call := func(op string, i int) {
+			switch op {
+			case "Pause":
+				w.Pause()
+			case "PauseAndWait":
+				w.PauseAndWait()
+			case "Resume":
+				w.Resume()
+			case "Stop":
+				w.Stop()
+			case "WaitAndStop":
+				w.WaitAndStop()
+			case "Restart":
+				w.Restart()
+			case "Tune":
+				w.TunePool(2 + i%3)
+			case "Add":
+				q.Add(i)
+			case "Bind":
+				w.BindPriorityQueue()
+			}
+			e.Ev(op)
+		}
+		for i, op := range pre {
+			call(op, i)
+			synctest.Wait()
+		}
+		cancel()
+		e.Ev("cancel")
+		ok := k.Await(func() {
+			for i, op := range post {
+				call(op, 100+i)
+			}
+		})
+		if !ok {
+			hangFail(e, "C14", "call-hang-after-cancel", bid)
+			return
+		}
+		time.Sleep(50 * time.Microsecond)
+		synctest.Wait()
+		if st := w.Status(); st != "Stopped" {
+			by, _, _ := Census(bid)
+			e.Fail("C14", "cancelled-context-not-stopped", st, fmt.Sprintf("%s: the configured context was cancelled and everything is quiescent, but the worker reports %s (library goroutines %v)", desc, st, by))
+		}
+		// a Restart cannot bring it back: the parent context is cancelled
+		w.Restart()
+		time.Sleep(50 * time.Microsecond)
+		synctest.Wait()
+		if st := w.Status(); st != "Stopped" {
+			e.Fail("C14", "transition", "ctx-race/restart-after-cancel,got="+st, fmt.Sprintf("%s: Restart with a cancelled parent context ended %s", desc, st))
+		}
+		probe := 999999
+		q.Add(probe)
+		time.Sleep(50 * time.Microsecond)
+		synctest.Wait()
+		ranMu.Lock()
+		pr := ran[probe]
+		ranMu.Unlock()
+		if pr != 0 {
+			e.Fail("C14", "processing-while-Stopped", "ctx-race", fmt.Sprintf("%s: probe job ran on a worker whose context is cancelled", desc))
+		}
+		w.Stop()
+		synctest.Wait()
+		if by, total, det := Census(bid); total != 0 {
+			e.Fail("C18", "goroutines-after-stop", creators(by), fmt.Sprintf("%s: %d library goroutines remain: %v\n%s", desc, total, by, strings.Join(det, "\n")))
+			e.Fail("C14", "leak-after-cancel", creators(by), fmt.Sprintf("%s: %d library goroutines remain after the cancelled worker was stopped: %v", desc, total, by))
+		}
+	})
+	switch out.Kind {
+	case "hang":
+		e.Fail("C14", "hang", "ctx-race/"+blockedLibFrames(out.Stacks), desc+": "+out.Msg+"\n"+out.Stacks)
+	case "panic":
+		e.Fail("C14", "panic", "ctx-race", desc+": "+out.Msg+"\n"+out.Stacks)
+	}
+	e.Nontrivial()
+	return e.Result(map[string]any{"program": desc})
+}
+
+func ctxRacePrograms(c *RunCtx, nq, nt int) {
+	ops := []string{"Pause", "PauseAndWait", "Resume", "Resume", "Stop", "WaitAndStop", "Restart", "Tune", "Add", "Add", "Bind"}
+	for v := 0; v < c.Q(nq, nt); v++ {
+		c.Program(fmt.Sprintf("ctx-race/%d", v), func(p *Prog) {
+			r := p.Rng
+			var pre, post []string
+			for i := 0; i < r.Intn(4); i++ {
+				pre = append(pre, ops[r.Intn(len(ops))])
+			}
+			for i := 0; i < 1+r.Intn(4); i++ {
+				post = append(post, ops[r.Intn(len(ops))])
+			}
+			expiry := r.Bool()
+			p.Explore(func(pl Plan) *Result { return epCtxRace(c, pre, post, expiry) },
+				ExploreOpts{Base: 4, K: c.Q(3, 6), Funcs: []string{"goListenToContext", "Restart", "Resume", "start", "Stop", "Pause", "closeChannels", "stopTickers", "stopAndRemoveAllWorkers", "TunePool"}, Pairs: c.Q(20, 100), MaxCases: c.Q(150, 2000)})
 		})
 	}
 }
